@@ -963,6 +963,48 @@ def r8_tracers_do_not_swallow(ctx, sym):
                       construct='%s.__exit__' % cls_name)
 
 
+def r9_closed_stdout(ctx, sym):
+    ctx.rule('R9', "student code may close the standard output it was given (`sys.stdout.close()`): reading the capture "
+                   "buffer back then raises ValueError. Sandbox._stop_mocking, executed abstractly with such a buffer on "
+                   "top of the stack, still releases the patches, pops the buffer, records an output for the execution "
+                   "and returns normally - it runs on every exit of _execute, outside the handlers that record "
+                   "student failures")
+    from .. import symexec
+    from ..fdeval import Obj, Raised as _Raised
+    from .c05 import sandbox_self, stack as stack_of
+    mod = ctx.repo.module(SANDBOX)
+    fn = mod.func('Sandbox._stop_mocking')
+    ctx.analysed_function(mod, fn)
+    for closed in (True, False):
+        rec = symexec.Recorder()
+        buf = Obj('capture-buffer')
+
+        def getvalue():
+            if closed:
+                raise _Raised('ValueError', 'I/O operation on closed file')
+            return 'text'
+        symexec.method(buf, 'getvalue', getvalue)
+        symexec.method(buf, 'flush', lambda: None)
+        older = Obj('older-buffer')
+        me = sandbox_self(ctx, sym, mod, patches=[('p1', 'p2')], stdout=[older, buf])
+        symexec.method(me, '_stop_patches', rec.stub('_stop_patches'))
+        symexec.method(me, 'append_output', rec.stub('append_output'))
+        fd = symexec.new_fd(sym, mod)
+        context = Obj('context')
+        _, raised = symexec.run(fd, fn, [context], bound_self=me, what='Sandbox._stop_mocking')
+        left = stack_of(me, 'stdout')
+        outs = rec.named('append_output')
+        ok = raised is None and len(rec.named('_stop_patches')) == 1 and len(left) == 1 and left[0] is older and \
+            len(outs) == 1 and (closed or outs[0][1][:1] == ('text',))
+        ctx.check(ok, 'R9', '_stop_mocking[buffer %s]' % ('closed by the student' if closed else 'open'), mod, fn,
+                  "with a capture buffer that the student %s, _stop_mocking %s (patches released %d time(s), %d buffer(s) "
+                  "left on the stack, %d output record(s))" % (
+                      'closed' if closed else 'left open', 'raises %s' % raised.kind if raised is not None else 'returns',
+                      len(rec.named('_stop_patches')), len(left), len(outs)),
+                  "import sys; sys.stdout.close(); x = 1/0  ->  run() raises ValueError('I/O operation on closed "
+                  "file') into the instructor script and the ZeroDivisionError is never reported")
+
+
 def run(ctx):
     sym = Symbols(ctx.repo)
     r1_sites_guarded(ctx, sym)
@@ -973,6 +1015,7 @@ def run(ctx):
     r6_threads(ctx, sym)
     r7_compile_error_without_position(ctx, sym)
     r8_tracers_do_not_swallow(ctx, sym)
+    r9_closed_stdout(ctx, sym)
     ctx.assume("unbounded recursion surfaces as RecursionError (an Exception atom); interpreter exit by means other "
                "than SystemExit (os._exit, segfault) and resource exhaustion are not decided")
     ctx.assume("hostile-class protocols other than string conversion (__eq__, __bool__, attribute stores on the "
